@@ -14,16 +14,6 @@ those returned values (so it also says that the model changes no other field) an
 namespace Ivg.Gen.Tie
 open Ivg Ivg.Num Ivg.Gen.Code Ivg.Ren
 
-/-- Go `[64]color.RGBA` of a model palette / colour register file -/
-def palOf (p : Palette) : Vector image_color_RGBA 64 := p.map rgbaOf
-/-- model palette of a Go `[64]color.RGBA` -/
-def palTo (p : Vector image_color_RGBA 64) : Palette := p.map rgbaTo
-
-@[simp] theorem palTo_palOf (p : Palette) : palTo (palOf p) = p := by
-  ext i hi <;> simp [palTo, palOf]
-@[simp] theorem palOf_palTo (p : Vector image_color_RGBA 64) : palOf (palTo p) = p := by
-  ext i hi <;> simp [palTo, palOf]
-
 /-- Go `x & 0x3f` as an index is the model's `% 64` of `Regs.get6/set6` -/
 theorem u8_and63_toNat (u : UInt8) : (u &&& 63).toNat = u.toNat % 64 := by
   rw [UInt8.toNat_and]; exact Nat.and_two_pow_sub_one_eq_mod _ 6
